@@ -63,6 +63,26 @@ pub fn generate(prop: &str, tier: &str, r: &mut Rng, out: &mut Vec<String>) -> G
         "C19" => {
             let n = if thorough { 300_000 } else { 5_000 };
             let lim = Limits { max_depth: 3, boundary: false };
+            {
+                // small shapes exhaustively: sets of 0, 1, 2 elements whose elements are scalars, sets or collections;
+                // collections of 0, 1, 2 members holding the same
+                use ipp::prelude::IppValue as V;
+                let atoms: Vec<V> = vec![
+                    V::Integer(7), V::NoValue, V::Keyword("k".into()), V::Array(vec![]), V::Array(vec![V::Integer(1)]),
+                    V::Array(vec![V::Integer(1), V::Keyword("x".into())]), V::Collection(Default::default()),
+                    V::Collection([("a".to_string(), V::Integer(1))].into_iter().collect()),
+                    V::Collection([("b".to_string(), V::Boolean(true)), ("a".to_string(), V::Keyword("z".into()))].into_iter().collect()),
+                ];
+                for a in &atoms {
+                    out.push(format!("iter {}", value_str(a)));
+                    out.push(format!("iter {}", value_str(&V::Array(vec![a.clone()]))));
+                    out.push(format!("iter {}", value_str(&V::Collection([("m".to_string(), a.clone())].into_iter().collect()))));
+                    for b in &atoms {
+                        out.push(format!("iter {}", value_str(&V::Array(vec![a.clone(), b.clone()]))));
+                        out.push(format!("iter {}", value_str(&V::Collection([("n".to_string(), a.clone()), ("m".to_string(), b.clone())].into_iter().collect()))));
+                    }
+                }
+            }
             for i in 0..n {
                 let mut rr = r.fork();
                 if i % 3 == 2 {
